@@ -23,7 +23,7 @@ PID = "C28"
 LEVEL = "proof"
 LEAN = ["SaVerif.Props.C28"]  # imports Model.Event and Lemmas.ExecOnce
 META = {
-    "text": "Lean model of the listener registry (class-level deques with lazy update_subclass over a class tree that grows, instance collections, registry keys, once wrappers). dispatch_eq_spec_partial: for EVERY op sequence (listen/remove on classes and instances with insert/once/named, classes and instances created at any time, dispatch) whose class-level listens neither repeat a live key nor put one bare function object on two classes at once, the listeners a dispatch walks are exactly the spec lists (live registrations of the class and its ancestors, inserted first newest first, then registration order, then the instance's own); remove() of a live key always succeeds; the two excluded patterns are machine-checked counterexamples (known findings). exec_once as an LTS with a mutex proved at-most-once for any number of threads and interleavings. Tied to the real sqlalchemy.event by a differential run (call lists + error kinds), by a declarative spec oracle, and for exec_once by trace inclusion: the reads/writes of _exec_once and _exec_once_mutex, Lock creations and acquire/release of real concurrent exec_once runs under the deterministic scheduler are replayed by the Lean driver as runs of the LTS.",
+    "text": "Lean model of the listener registry (class-level deques with lazy update_subclass over a class tree that grows, instance collections, registry keys, once wrappers). dispatch_eq_spec_partial: for EVERY op sequence (listen/remove on classes and instances with insert/once/named, classes and instances created at any time, dispatch) whose class-level listens neither repeat a live key nor put one bare function object on two classes at once, the listeners a dispatch walks are exactly the spec lists (live registrations of the class and its ancestors, inserted first newest first, then registration order, then the instance's own); remove() of a live key always succeeds; the two excluded patterns are machine-checked counterexamples (known findings). exec_once as an LTS with a mutex proved at-most-once for any number of threads and interleavings. Multiple inheritance (class DAGs) is outside the Lean model and is decided by a direct oracle on the real code (each live registration on the MRO fires exactly once). Tied to the real sqlalchemy.event by a differential run (call lists + error kinds), by a declarative spec oracle, and for exec_once by trace inclusion: the reads/writes of _exec_once and _exec_once_mutex, Lock creations and acquire/release of real concurrent exec_once runs under the deterministic scheduler are replayed by the Lean driver as runs of the LTS.",
     "note": "exec_once_at_most_once is proved only for atomic mutex creation (_partial) with a machine-checked counterexample for the code as it is on GIL builds (util.mini_gil = nullcontext) - reproduced with real threads, see known_findings.d/C28.json. The Lean model is single-inheritance; multiple inheritance (class DAGs, bases created before/after the listens) is decided by a direct oracle on the real code only (each live registration on the MRO fires exactly once; order not asserted); one event name; retval / _update / _join not modelled. dispatch_eq_spec is proved under RunOk (no repeated live class-level key; a bare function object listens on at most one class at a time) - see *_partial / *_counterexample and known findings; the registry field `ins` of the model is a ghost read only by the spec.",
     "technique": "Lean 4 model + invariant proofs; differential correspondence; declarative spec oracle; deterministic scheduler for exec_once",
     "design_ref": "DESIGN.md §3 C28",
